@@ -8,6 +8,9 @@ HERE = os.path.dirname(os.path.dirname(os.path.abspath(__file__)))
 NEEDS = json.load(open(os.path.join(HERE, 'seeded', 'needs.json'), encoding='utf-8')) if os.path.exists(os.path.join(HERE, 'seeded', 'needs.json')) else {}
 
 
+FIRST = json.load(open(os.path.join(HERE, 'seeded', 'first_run.json'), encoding='utf-8')) if os.path.exists(os.path.join(HERE, 'seeded', 'first_run.json')) else {}
+
+
 def tail(path, n=3):
     if not os.path.exists(path):
         return None
@@ -46,6 +49,7 @@ for pid in sys.argv[1:]:
         },
         'check_result': checks,
         'caught': any(c['verdict'] == 'VIOLATED' for c in checks.values()),
+        'caught_at_first_run': pid not in FIRST.get('missed_at_first_run', []),
     }
     with open(os.path.join(base, 'meta.json'), 'w', encoding='utf-8') as fd:
         json.dump(meta, fd, indent=1)
